@@ -25,6 +25,7 @@ unwind); the `Layout` overflow panic inside `DataPtr::grow` (it fires before any
 written; unreachable below 2^24 entries for realistic component sizes); panics inside
 `Drop`/`Clone` impls of component types (double panics abort).
 -/
+import Gecs.Lemmas.CheckSound
 import Gecs.Lemmas.Robust
 import Gecs.Lemmas.GenTie
 
@@ -33,6 +34,7 @@ import Gecs.Lemmas.GenTie
 -- OBLIGATIONS: Gecs.C10_capacity_overflow_is_atomic Gecs.C10_prefix_defect_witness
 -- OBLIGATIONS: Gecs.C10_closure_panic_keeps_writes_consistent Gecs.C10_find_closure_panic
 -- OBLIGATIONS: Gecs.gen_version_max Gecs.gen_max_capacity
+-- OBLIGATIONS: Gecs.invCheck_iff
 
 namespace Gecs
 variable {α σ : Type}
